@@ -49,14 +49,14 @@ def run(chk):
     ym = prog.func("molli.chem.structure:Structure.yield_from_mol2")
     yx = prog.func("molli.chem.geometry:CartesianGeometry.yield_from_xyz")
     chk.analysed(rm, rx, ym, yx)
-    r1_reset(chk, rm)
-    r2_count_loops(chk, rm, rx)
-    r3_xyz_errors(chk, rx)
-    r4_no_swallow(chk, [rm, rx, ym, yx])
-    r5_termination(chk, [rm, rx])
-    r6_own_counts(chk, ym, yx)
-    line_reader(chk)
-    r7_suppression_rearmed(chk, rm)
+    chk.call(r1_reset, chk, rm)
+    chk.call(r2_count_loops, chk, rm, rx)
+    chk.call(r3_xyz_errors, chk, rx)
+    chk.call(r4_no_swallow, chk, [rm, rx, ym, yx])
+    chk.call(r5_termination, chk, [rm, rx])
+    chk.call(r6_own_counts, chk, ym, yx)
+    chk.call(line_reader, chk)
+    chk.call(r7_suppression_rearmed, chk, rm)
 
 
 # ---------------------------------------------------------------------------
